@@ -7,6 +7,7 @@
   and payout method.
 -/
 import SettlusModel.Proofs.RecWf
+import SettlusModel.Query
 import SettlusModel.Properties.C12
 import SettlusModel.Properties.C10
 import SettlusModel.Proofs.Dec
@@ -194,6 +195,22 @@ theorem treasury_is_deposits_minus_payouts (H : Str → Str) (pr : Nat) (c : Boo
     (run H (initState pr c) ops).bank (.treasury k) d + debits (run H (initState pr c) ops).log k d =
       deposits (run H (initState pr c) ops).log k d :=
   (reachable_linv H pr c ops).treasury k d
+
+/-- the same at the query server: for a native-currency tenant the Tenant query reports exactly deposits minus payouts, after any history -/
+theorem tenant_query_reports_the_ledger (H : Str → Str) (pr : Nat) (c : Bool) (ops : List Op) (k : Nat) (v : TenantView)
+    (hq : qTenant (run H (initState pr c) ops) k = some v) (hn : v.tenant.mint = false) :
+    ∃ b, v.balance = some b ∧ b + debits (run H (initState pr c) ops).log v.tenant.id v.tenant.denom = deposits (run H (initState pr c) ops).log v.tenant.id v.tenant.denom := by
+  unfold qTenant at hq
+  cases hf : findTenant (run H (initState pr c) ops).st.tenants k with
+  | none => rw [hf] at hq; cases hq
+  | some t =>
+    rw [hf] at hq
+    simp only [Option.map_some, Option.some.injEq] at hq
+    subst hq
+    simp only [tenantView] at hn ⊢
+    simp only [hn]
+    exact ⟨_, rfl, treasury_is_deposits_minus_payouts H pr c ops t.id t.denom⟩
+
 
 /-- the per-operation form: whatever one operation does to a treasury balance is accounted for by the events it appends -/
 theorem step_keeps_ledger (H : Str → Str) (s : State) (op : Op) (hs : SInv s.st) (hl : LInv s) :
